@@ -54,7 +54,8 @@ TAIL_FAILAGAIN = "P 0 ; %s ; P 0 ; D 0"
 
 
 def script_for(name, opts, faults, r, natural=False, tail=0):
-    mask = r.choice([0, 0x4002, 0x7fffbeff & ~(1 << 8), 0x200])  # never block SIGKILL/SIGSTOP bits needlessly
+    mask = r.choice([0, 0x4002, 0x7fffbeff & ~(1 << 8), 0x200, r.getrandbits(31), r.getrandbits(63)])
+    mask &= ~((1 << 8) | (1 << 18) | (1 << 10) | (1 << 6) | (1 << 7) | (1 << 3))  # not KILL/STOP (no-ops) nor SEGV/BUS/FPE/ILL (sanitizer needs them)
     sg = r.sample(SIGS_OK, 3)
     pre = PRELUDE % (r.randrange(1000), mask, sg[0], r.randrange(3), sg[1], r.randrange(3), sg[2], 1 + r.randrange(2))
     if r.random() < 0.1:
